@@ -42,7 +42,8 @@ def _run_patch(rep, d, m):
             return dict(name=m["name"], status="known-miss" if not fired else "now-detected", fired=sorted(set(fired))[:6])
         hit = any(f.startswith(want) for f in fired)
         if "ANALYSIS-ERROR" in r.stdout and not hit:
-            return dict(name=m["name"], status="mutant-does-not-build", why=r.stdout.strip().splitlines()[-1][:200])
+            # a confirmed seed compiles: an analysis error on it means a rule could not read a legal program (and hid the other rules' reports)
+            return dict(name=m["name"], status="MISSED", expect=want, fired=[], why="analysis error on a compiling seed: " + r.stdout.strip().splitlines()[-1][:200])
         return dict(name=m["name"], status="detected" if hit else "MISSED", expect=want, fired=sorted(set(fired))[:6])
     finally:
         subprocess.run(["patch", "-p1", "-s", "-f", "-R", "-d", d, "-i", pf], capture_output=True, text=True)
